@@ -238,15 +238,70 @@ Proof.
   destruct last; cbn; [|discriminate]. intros _. eexists; split; reflexivity.
 Qed.
 
-Lemma load_dump_clear_log e s sn :
-  stored (sr (nd s)) = Some (Good sn) -> applied (nd s) < eidx (s_e1 sn) -> s_ver sn <= self_ver (nd s) ->
-  log (nd (load_dump e true s)) = [s_e0 sn; s_e1 sn].
+(* does the log hold the snapshot's two entries (same index, term, command)? *)
+Definition snap_kept (sn : snapshot) (l : list entry) : bool :=
+  match get_entries l (Some (eidx (s_e0 sn))) (Some 2) None with
+  | [a; b] => entry_eqb a (s_e0 sn) && entry_eqb b (s_e1 sn)
+  | _ => false
+  end.
+
+Lemma entry_eqb_eidx a b : entry_eqb a b = true -> eidx a = eidx b.
 Proof.
-  intros Hs Ha Hv. unfold load_dump. rewrite Hs.
-  destruct (eidx (s_e1 sn) <=? applied (nd s)) eqn:Eb; [apply N.leb_le in Eb; lia|]. cbn [andb].
+  unfold entry_eqb. intros H. apply andb_prop in H. destruct H as [H _].
+  apply andb_prop in H. destruct H as [_ H]. now apply N.eqb_eq.
+Qed.
+
+Lemma snap_kept_split sn l :
+  snap_kept sn l = true ->
+  exists pre a b r, l = pre ++ a :: b :: r /\ delete_to l (eidx (s_e0 sn)) = a :: b :: r /\
+                    entry_eqb a (s_e0 sn) = true /\ entry_eqb b (s_e1 sn) = true.
+Proof.
+  unfold snap_kept, get_entries, delete_to.
+  destruct (eidx (s_e0 sn) <? first_idx l); [discriminate|].
+  set (k := N.to_nat (eidx (s_e0 sn) - first_idx l)).
+  destruct (skipn k l) as [|a [|b r]] eqn:Es; cbn [firstn N.to_nat Pos.to_nat Pos.iter_op Nat.add]; try discriminate.
+  change (N.to_nat 2) with 2%nat. cbn [firstn]. intros H. apply andb_prop in H. destruct H as [H1 H2].
+  exists (firstn k l), a, b, r. split; [|auto].
+  rewrite <- Es. symmetry. apply firstn_skipn.
+Qed.
+
+Lemma snap_not_kept_head sn l :
+  snap_kept sn l = false ->
+  match l with a :: b :: _ => entry_eqb a (s_e0 sn) && entry_eqb b (s_e1 sn) | _ => false end = false.
+Proof.
+  intros H. destruct l as [|a [|b r]]; try reflexivity.
+  destruct (entry_eqb a (s_e0 sn)) eqn:Ea; [|reflexivity]. cbn [andb].
+  unfold snap_kept, get_entries in H. cbn [first_idx] in H.
+  rewrite <- (entry_eqb_eidx _ _ Ea), N.ltb_irrefl, N.sub_diag in H.
+  change (N.to_nat 0) with 0%nat in H. change (N.to_nat 2) with 2%nat in H. cbn [skipn firstn] in H.
+  now rewrite Ea in H.
+Qed.
+
+(* what a load does to the log and to applied: the log keeps its entries from the snapshot's
+   position on when it holds the snapshot's two entries, otherwise it becomes [e0; e1] *)
+Lemma load_dump_loaded e cl s sn :
+  stored (sr (nd s)) = Some (Good sn) -> cl && (eidx (s_e1 sn) <=? applied (nd s)) = false ->
+  s_ver sn <= self_ver (nd s) ->
+  log (nd (load_dump e cl s)) =
+    (if snap_kept sn (log (nd s)) then delete_to (log (nd s)) (eidx (s_e0 sn)) else [s_e0 sn; s_e1 sn]) /\
+  applied (nd (load_dump e cl s)) = eidx (s_e1 sn).
+Proof.
+  intros Hs Hb Hv. unfold load_dump. rewrite Hs, Hb.
   destruct (self_ver (nd s) <? s_ver sn) eqn:E; [apply N.ltb_lt in E; lia|].
-  cbn [orb].
-  destruct (dyn (cf e)); rewrite ?(fr_update_cluster log) by frs; reflexivity.
+  cbv zeta. cbn [nd upd log set].
+  fold (snap_kept sn (log (nd s))).
+  match goal with |- context [update_cluster ?l ?s4] => set (s5 := s4) end.
+  assert (E5 : log (nd s5) = (if snap_kept sn (log (nd s)) then delete_to (log (nd s)) (eidx (s_e0 sn))
+                              else [s_e0 sn; s_e1 sn]) /\ applied (nd s5) = eidx (s_e1 sn)).
+  { subst s5. destruct (snap_kept sn (log (nd s))) eqn:Ek.
+    - destruct (snap_kept_split sn _ Ek) as (pre & a & b & r & _ & Hd & Ha & Hb2).
+      cbn [nd upd log set]. rewrite Hd, Ha, Hb2. cbn. rewrite Hd. auto.
+    - cbn [nd upd log set]. rewrite (snap_not_kept_head sn _ Ek). cbn. auto. }
+  clearbody s5. destruct E5 as [E5a E5b].
+  destruct (dyn (cf e)); [|auto].
+  match goal with |- context [if ?b then apply_membership _ _ _ else _] => destruct b end; split;
+    rewrite ?(fr_apply_membership log), ?(fr_apply_membership applied) by frs;
+    rewrite ?(fr_update_cluster log), ?(fr_update_cluster applied) by frs; assumption.
 Qed.
 
 Definition ae_msg_info (m : msg) : option (N * N) :=
@@ -274,7 +329,8 @@ Theorem follower_commit_verified e from m n :
          commit n' = N.min c (eidx en')
      | AESnap _ _ p =>
        exists sn, recv_snapshot p (sr n) = Some (Good sn) /\ s_ver sn <= self_ver n /\
-         log n' = [s_e0 sn; s_e1 sn] /\ commit n' = N.min c (eidx (s_e1 sn))
+         log n' = (if snap_kept sn (log n) then delete_to (log n) (eidx (s_e0 sn)) else [s_e0 sn; s_e1 sn]) /\
+         commit n' = N.min c (eidx (s_e1 sn))
      | _ => False
      end).
 Proof.
@@ -325,11 +381,13 @@ Proof.
     assert (E0 : commit (nd s0) = commit n) by (apply (fr_ae_pre commit); frs).
     assert (L0 : sr (nd s0) = sr n) by (apply (fr_ae_pre sr); frs).
     assert (V0 : self_ver (nd s0) = self_ver n) by (apply (fr_ae_pre self_ver); frs).
+    assert (L1 : log (nd s0) = log n) by (apply (fr_ae_pre log); frs).
     clearbody s0. unfold ae_body_of.
     pose proof (set_transmission_spec p s0) as Hst. cbv zeta in Hst.
     pose proof (fr_set_transmission commit) as F1.
     pose proof (fr_set_transmission self_ver) as F2.
-    specialize (F1 ltac:(frs) p s0). specialize (F2 ltac:(frs) p s0).
+    pose proof (fr_set_transmission log) as F3.
+    specialize (F1 ltac:(frs) p s0). specialize (F2 ltac:(frs) p s0). specialize (F3 ltac:(frs) p s0).
     destruct (set_transmission p s0) as [s2 dn]. cbn [fst snd] in *.
     destruct (dn && load_dump_ok s2) eqn:Ed.
     2:{ left. destruct dn; rewrite ae_commit_spec; rewrite ?(fr_load_dump commit) by frs; congruence. }
@@ -338,13 +396,12 @@ Proof.
     unfold load_dump_ok in Hok. rewrite Hb2 in Hok. destruct b as [sn|]; [|discriminate].
     apply andb_prop in Hok. destruct Hok as [Hah Hok].
     apply negb_true_iff, N.leb_gt in Hah. apply N.leb_le in Hok.
+    assert (Hb : true && (eidx (s_e1 sn) <=? applied (nd s2)) = false) by (cbn; now apply N.leb_gt).
+    destruct (load_dump_loaded e true s2 sn Hb2 Hb Hok) as [Hlg Hap].
     rewrite ae_commit_spec, !nd_send_next_idx.
     rewrite (fr_load_dump commit) by frs.
-    rewrite (load_dump_clear_log e s2 sn Hb2 Hah Hok).
     rewrite (fr_ae_commit log), nd_send_next_idx by frs.
-    rewrite (load_dump_clear_log e s2 sn Hb2 Hah Hok).
-    change (last_idx [s_e0 sn; s_e1 sn]) with (eidx (s_e1 sn)).
-    rewrite F1, E0.
+    rewrite Hlg, Hap, F1, E0, F3, L1.
     destruct (commit n <? c) eqn:Ecc; [|now left]. apply N.ltb_lt in Ecc.
     destruct (N.le_gt_cases (N.min c (eidx (s_e1 sn))) (commit n)) as [Hle|Hgt]; [left; lia|].
     right. split; [lia|]. exists t, c. split; [reflexivity|]. split; [exact Et|]. split; [lia|].
@@ -479,7 +536,8 @@ Proof.
   destruct (cl && (eidx (s_e1 sn) <=? applied (nd s))) eqn:Eb; [now left|].
   destruct (self_ver (nd s) <? s_ver sn) eqn:Ev; [now left|]. apply N.ltb_ge in Ev.
   right. exists sn. split; [reflexivity|]. split; [exact Ev|]. split.
-  - destruct (dyn (cf e)); rewrite ?(fr_update_cluster applied) by frs; reflexivity.
+  - pose proof (load_dump_loaded e cl s sn Es Eb Ev) as [_ H]. unfold load_dump in H.
+    rewrite Es, Eb in H. destruct (self_ver (nd s) <? s_ver sn) eqn:E; [apply N.ltb_lt in E; lia|]. exact H.
   - intros ->. cbn in Eb. now apply N.leb_gt in Eb.
 Qed.
 
@@ -753,4 +811,67 @@ Proof.
                         apply (fr_check_commands applied)]; frs. }
   apply Hfr; intros; [apply (fr_try_compact match_idx)|apply (fr_try_compact replay_idx)|
                       apply (fr_try_compact applied)]; frs.
+Qed.
+
+(* ------------------------------------------------------------------------------------------ *)
+(* C04_install_keeps_acknowledged: installing a snapshot keeps what the follower holds behind it *)
+
+Lemma set_transmission_recv p s b :
+  recv_snapshot p (sr (nd s)) = Some b ->
+  snd (set_transmission p s) = true /\ stored (sr (nd (fst (set_transmission p s)))) = Some b.
+Proof.
+  unfold recv_snapshot, set_transmission. destruct p as [|b0 off len first last]; [discriminate|].
+  destruct last; [|discriminate].
+  destruct (if first then Some [] else incoming (sr (nd s))) as [ps|]; [|discriminate].
+  intros H. inversion H. cbn. auto.
+Qed.
+
+Lemma outs_ae_commit c v s : outs (ae_commit c v s) = outs s.
+Proof. unfold ae_commit. destruct v; [destruct (_ <? _)|]; reflexivity. Qed.
+
+Theorem install_keeps_acknowledged e from t c p n sn :
+  term n <= t -> recv_snapshot p (sr n) = Some (Good sn) ->
+  s_ver sn <= self_ver n -> applied n < eidx (s_e1 sn) ->
+  let s' := on_message e from (AESnap t c p) n in
+  let n' := nd s' in
+  applied n' = eidx (s_e1 sn) /\
+  (snap_kept sn (log n) = true ->
+     log n' = delete_to (log n) (eidx (s_e0 sn)) /\
+     exists pre a b r, log n = pre ++ a :: b :: r /\
+       entry_eqb a (s_e0 sn) = true /\ entry_eqb b (s_e1 sn) = true /\ log n' = a :: b :: r) /\
+  (snap_kept sn (log n) = false -> log n' = [s_e0 sn; s_e1 sn]) /\
+  (smem from (tconn n') = true ->
+     In (Send from (NextIdx (term n') (eidx (s_e1 sn) + 1) false true)) (outs s')).
+Proof.
+  intros Ht Hr Hv Ha. cbv zeta.
+  unfold on_message. rewrite on_append_entries_eq. cbn [nd start_S].
+  destruct (t <? term n) eqn:Et; [apply N.ltb_lt in Et; lia|].
+  set (s0 := ae_pre e from t c (start_S e n)).
+  assert (A0 : applied (nd s0) = applied n) by (apply (fr_ae_pre applied); frs).
+  assert (L0 : sr (nd s0) = sr n) by (apply (fr_ae_pre sr); frs).
+  assert (V0 : self_ver (nd s0) = self_ver n) by (apply (fr_ae_pre self_ver); frs).
+  assert (G0 : log (nd s0) = log n) by (apply (fr_ae_pre log); frs).
+  clearbody s0. unfold ae_body_of.
+  rewrite <- L0 in Hr. destruct (set_transmission_recv p s0 _ Hr) as [Hd Hst].
+  pose proof (fr_set_transmission applied) as F1. specialize (F1 ltac:(frs) p s0).
+  pose proof (fr_set_transmission self_ver) as F2. specialize (F2 ltac:(frs) p s0).
+  pose proof (fr_set_transmission log) as F3. specialize (F3 ltac:(frs) p s0).
+  destruct (set_transmission p s0) as [s2 dn]. cbn [fst snd] in *. subst dn.
+  assert (Hok : load_dump_ok s2 = true).
+  { unfold load_dump_ok. rewrite Hst, F1, A0, F2, V0.
+    apply andb_true_intro. split; [apply negb_true_iff, N.leb_gt; exact Ha|apply N.leb_le; exact Hv]. }
+  rewrite Hok. cbn [andb].
+  assert (Hb : true && (eidx (s_e1 sn) <=? applied (nd s2)) = false)
+    by (cbn; apply N.leb_gt; now rewrite F1, A0).
+  assert (Hv2 : s_ver sn <= self_ver (nd s2)) by now rewrite F2, V0.
+  destruct (load_dump_loaded e true s2 sn Hst Hb Hv2) as [Hlg Hap].
+  rewrite F3, G0 in Hlg.
+  set (L := load_dump e true s2) in *.
+  rewrite (fr_ae_commit applied), (fr_ae_commit log), (fr_ae_commit tconn), (fr_ae_commit term) by frs.
+  rewrite !nd_send_next_idx, outs_ae_commit. rewrite Hap.
+  split; [reflexivity|]. split; [|split].
+  - intros Hk. rewrite Hk in Hlg. destruct (snap_kept_split sn _ Hk) as (pre & a & b & r & H1 & H2 & H3 & H4).
+    split; [exact Hlg|]. exists pre, a, b, r. rewrite Hlg. auto.
+  - intros Hk. now rewrite Hk in Hlg.
+  - intros Hc. unfold send_next_idx, send. rewrite Hc. cbn. apply in_or_app. right. now left.
 Qed.
